@@ -32,7 +32,7 @@ for rid in ids:
         line = [l for l in p.stdout.splitlines() if l.startswith("@@")]
         res = json.loads(line[0][2:]) if line else {"BUILD": [{"instance": "build", "at": "-", "reason": p.stdout[-300:], "key": "build"}]}
     finally:
-        subprocess.run("git -C /repo checkout -- .", shell=True)
+        subprocess.run("git -C /repo checkout -- . && git -C /repo clean -fdq", shell=True)
     fired = {c: vs for c, vs in res.items() if vs}
     json.dump({"id": rid, "false_alarms": {c: [v["key"] + " :: " + v["reason"][:200] for v in vs[:5]] for c, vs in fired.items()}}, open(os.path.join(V, "refactors", rid, "result.json"), "w"), indent=1)
     print("%-8s %s" % (rid, "clean" if not fired else "FALSE ALARM in " + ", ".join(sorted(fired))))
